@@ -1217,6 +1217,447 @@ def sibling_programs(rng, sizes, fam):
     return out
 
 
+# ----------------------------------------------------------------------------- structured-matrix gates (round 3)
+# Gates whose matrix has STRUCTURE a view may exploit with a special path (permutation -> gather rows, diagonal -> scale
+# rows, monomial -> both, identity -> skip, few entries -> sparse kernel): non-symmetric permutations, signed / phased
+# permutations, diagonal gates, sparse non-monomial unitaries, the identity; as GeneralGate in int / float / complex
+# dtype and through the built-in gates; at every position of the circuit; on wires in non-ascending order.  The
+# reference never asks the library for a matrix: plain numpy matrices written down from the definitions.
+_SQ = np.sqrt(0.5)
+_W_REAL = np.array([[0.6, -0.8], [0.8, 0.6]], dtype=complex)
+_W_CPLX = np.array([[0.6, 0.8j], [0.8j, 0.6]], dtype=complex)
+_W_HAD = np.array([[_SQ, _SQ], [_SQ, -_SQ]], dtype=complex)
+_PLAIN_ONE = {
+    "I": [[1, 0], [0, 1]], "X": [[0, 1], [1, 0]], "Y": [[0, -1j], [1j, 0]], "Z": [[1, 0], [0, -1]],
+    "H": [[_SQ, _SQ], [_SQ, -_SQ]], "S": [[1, 0], [0, 1j]], "Sdg": [[1, 0], [0, -1j]],
+    "T": [[1, 0], [0, np.exp(0.25j * np.pi)]], "Tdg": [[1, 0], [0, np.exp(-0.25j * np.pi)]],
+}
+
+
+def plain_matrix(spec):
+    """numpy-only matrix of a gate spec over its own particles (spec_particles order: controls first, first = most
+    significant), from the textbook definitions; never built from a library object"""
+    k = spec[0]
+    if k in _PLAIN_ONE:
+        return np.array(_PLAIN_ONE[k], dtype=complex)
+    if k in ("Rx", "Ry", "Rz"):
+        c, s = np.cos(spec[1] / 2.0), np.sin(spec[1] / 2.0)
+        if k == "Rx":
+            return np.array([[c, -1j * s], [-1j * s, c]], dtype=complex)
+        if k == "Ry":
+            return np.array([[c, -s], [s, c]], dtype=complex)
+        return np.array([[c - 1j * s, 0], [0, c + 1j * s]], dtype=complex)
+    if k == "Gen":
+        return np.array([[complex(*e) for e in row] for row in spec[1]], dtype=complex)
+    if k == "C":
+        U = plain_matrix(spec[3])
+        d = U.shape[0]
+        ic = 0
+        for b in spec[1]:                       # first control = most significant bit of the control index
+            ic = 2 * ic + int(b)
+        M = np.identity(d * 2 ** len(spec[1]), dtype=complex)
+        M[ic * d:(ic + 1) * d, ic * d:(ic + 1) * d] = U
+        return M
+    if k == "Mux":
+        Us = [plain_matrix(t) for t in spec[2]]
+        d = Us[0].shape[0]
+        M = np.zeros((d * len(Us), d * len(Us)), dtype=complex)
+        for i, U in enumerate(Us):               # control value i selects target i
+            M[i * d:(i + 1) * d, i * d:(i + 1) * d] = U
+        return M
+    raise ValueError("no plain matrix for " + repr(spec[0]))
+
+
+def perm_matrix(p):
+    """the permutation |x> -> |p[x]> of the basis states: entry (p[x], x) = 1"""
+    P = np.zeros((len(p), len(p)), dtype=complex)
+    for x, y in enumerate(p):
+        P[y, x] = 1
+    return P
+
+
+def nonsym_perm(rng, dim):
+    """a permutation that is not its own inverse (dim >= 3); the exchange for dim 2"""
+    if dim < 3:
+        return [1, 0][:dim]
+    while True:
+        p = list(range(dim))
+        rng.shuffle(p)
+        if any(p[p[x]] != x for x in range(dim)):
+            return p
+
+
+def structured_matrices(rng, m):
+    """(tag, plain unitary on m qubits) for every class of structure; the non-diagonal ones are non-symmetric whenever
+    the dimension allows it (U != U^T, U != U^-1: a path that applies the inverse / the transpose shows)"""
+    dim = 2 ** m
+    out = [("identity", np.identity(dim, dtype=complex))]
+    if dim == 2:
+        out.append(("permutation:exchange", perm_matrix([1, 0])))
+    else:
+        out.append(("permutation:cyclic-shift+1", perm_matrix([(x + 1) % dim for x in range(dim)])))
+        out.append(("permutation:cyclic-shift-1", perm_matrix([(x - 1) % dim for x in range(dim)])))
+        if dim >= 8:
+            out.append(("permutation:cyclic-shift+3", perm_matrix([(x + 3) % dim for x in range(dim)])))
+        a, b, c = rng.sample(range(dim), 3)
+        p = list(range(dim))
+        p[a], p[b], p[c] = b, c, a
+        out.append(("permutation:3-cycle", perm_matrix(p)))
+        out.append(("permutation:random", perm_matrix(nonsym_perm(rng, dim))))
+    P = perm_matrix(nonsym_perm(rng, dim))
+    signs = [1, -1] + [rng.choice([1, -1]) for _ in range(dim - 2)]
+    rng.shuffle(signs)
+    out.append(("monomial:signed-permutation", P * np.array(signs)))
+    Q = P.copy()
+    Q[dim - 1, :] *= -1
+    out.append(("monomial:all-ones-but-the-last-row", Q))
+    Q = P.copy()
+    Q[0, :] *= 1j
+    out.append(("monomial:all-ones-but-the-first-row", Q))
+    out.append(("monomial:phases-i^k", P * np.array([1j ** rng.randrange(4) for _ in range(dim)])))
+    out.append(("monomial:phases-8th-roots", P * np.exp(0.25j * np.pi * np.array([rng.randrange(8) for _ in range(dim)]))))
+    out.append(("monomial:permutation-times-i", 1j * P))
+    out.append(("monomial:permutation-times-minus-1", -P))
+    sg = [1, -1] + [rng.choice([1, -1]) for _ in range(dim - 2)]
+    rng.shuffle(sg)
+    out.append(("diagonal:+-1", np.diag(np.array(sg, dtype=complex))))
+    out.append(("diagonal:one-entry-minus-1", np.diag(np.array([1] * (dim - 1) + [-1], dtype=complex))))
+    out.append(("diagonal:i^k", np.diag(np.array([1j ** k for k in [1] + [rng.randrange(4) for _ in range(dim - 1)]]))))
+    out.append(("diagonal:8th-roots", np.diag(np.exp(0.25j * np.pi * np.array([1] + [rng.randrange(8) for _ in range(dim - 1)])))))
+    out.append(("diagonal:minus-identity", -np.identity(dim, dtype=complex)))
+    if dim >= 4:
+        Qh = perm_matrix(nonsym_perm(rng, dim // 2))
+        out.append(("sparse:block-permutation(x)dense-block", np.kron(Qh, _W_REAL)))
+        out.append(("sparse:dense-block(x)permutation", np.kron(_W_CPLX, Qh)))
+        a, b = sorted(rng.sample(range(dim), 2))
+        B = np.identity(dim, dtype=complex)
+        B[np.ix_([a, b], [a, b])] = _W_REAL
+        out.append(("sparse:identity-with-one-dense-block", B))
+        out.append(("sparse:permutation.identity-with-one-dense-block", P @ B))
+        B = np.identity(dim, dtype=complex)
+        B[np.ix_([a, b], [a, b])] = _W_HAD
+        out.append(("sparse:signed-permutation.identity-with-hadamard-block", (P * np.array(signs)) @ B))
+    return out
+
+
+def layouts_for(U):
+    """dtypes / memory layouts (checks.C04.relayout) that hold U exactly"""
+    if np.all(U.imag == 0) and np.all(U.real == np.round(U.real)):
+        return ("int", "C", "real", "i8", "Fint", "c64", "list", "Freal", "F")
+    if np.all(U.imag == 0):
+        return ("real", "C", "Freal", "list")
+    return ("C", "F", "c64", "list", "T")
+
+
+def _unsorted(rng, allp, m):
+    """m particles, NOT in ascending order when m >= 2"""
+    while True:
+        ps = [list(p) for p in rng.sample(allp, m)]
+        if m < 2 or ps != sorted(ps):
+            return ps
+
+
+def _generic_layer(allp):
+    """a product layer that makes |0..0> a state without zero amplitudes and without symmetry between the wires"""
+    return [["Ry", (3 + 2 * i) / 8.0, p] for i, p in enumerate(allp)] + [["Rz", 0.625, allp[0]], ["Rz", -0.375, allp[-1]]]
+
+
+def structured_programs(rng, sizes, thorough):
+    """(class tag, position tag, specs): every structured matrix as a GeneralGate on 1..3 wires in non-ascending order,
+    as the only gate, first, last, in the middle, between dense gates, twice in a row, next to ANOTHER structured gate,
+    and inside a circuit of permutation gates acting on a basis state"""
+    allp = [[fi, i] for fi, n in enumerate(sizes) for i in range(n)]
+    pre = _generic_layer(allp)
+    dense2 = mat_spec(rand_dense_unitary(rng, 4))
+    prev = ["C", [1], [allp[-1]], ["X", allp[0]]]
+    nlay = 0
+    for m in (1, 2, 3):
+        if m > len(allp):
+            continue
+        for tag, U in structured_matrices(rng, m):
+            lays = layouts_for(U)
+            if thorough and m >= 2:
+                base = _unsorted(rng, allp, m)
+                others = [list(o) for o in itertools.permutations(base) if list(o) != base]
+                orders = [base] + rng.sample(others, min(len(others), 2))
+            else:
+                orders = [_unsorted(rng, allp, m)]
+            for ps in orders:
+                S = ["Gen", mat_spec(U), ps, lays[nlay % len(lays)]]
+                nlay += 1
+                x = ps[-1]
+                rest = [p for p in allp if p not in ps]
+                y = rng.choice(rest) if rest else ps[0]
+                Dd = ["Gen", dense2, [y, x], "C"] if y != x else ["H", x]
+                Hx = ["H", ps[0]]
+                CXg = ["C", [rng.randint(0, 1)], [x], ["X", y]] if y != x else ["X", x]
+                basis = [["X", p] for p in rng.sample(allp, rng.randint(1, len(allp)))]
+                shapes = [("only", [S]),                       # short programs first: the first failure per signature is kept
+                          ("twice-only", [S, S]),
+                          ("two-structured-gates-only", [prev, S]),
+                          ("first", [S, Dd, Hx]),
+                          ("between-dense", [Hx, Dd, S, Dd]),
+                          ("twice", [Dd, S, S, Hx]),
+                          ("last", pre + [Dd, S]),
+                          ("middle", pre + [S, Dd]),
+                          ("basis-state-permutation-circuit", basis + [S, CXg, S]),
+                          ("after-another-structured-gate", pre + [prev, S, Dd])]
+                if thorough:
+                    shapes.append(("three-times", [Hx, S, S, S]))
+                for pos, specs in shapes:
+                    yield tag, pos, jsonable(jcopy(specs))
+                prev = S
+
+
+def builtin_structured_programs(rng, sizes, thorough):
+    """(class tag, position tag, specs): structure reached through the BUILT-IN gates - controlled-X under every control
+    state and wire assignment, SWAP-like and cyclic composites of them (each factor is symmetric, the product is not),
+    controlled / multiplexed GeneralGates holding permutations and monomial matrices, diagonal gates, random reversible
+    circuits"""
+    allp = [[fi, i] for fi, n in enumerate(sizes) for i in range(n)]
+    pre = _generic_layer(allp)
+    a, b, c = _unsorted(rng, allp, 3)
+    dense2 = mat_spec(rand_dense_unitary(rng, 4))
+    Dd = ["Gen", dense2, [c, a], "C"]
+    cyc = perm_matrix([1, 2, 3, 0])
+    cx = lambda s, p, q: ["C", [s], [p], ["X", q]]
+    ccx = lambda s, t, p, q, r: ["C", [s, t], [p, q], ["X", r]]
+    blocks = []
+    perms3 = list(itertools.permutations([a, b, c]))
+    if not thorough:
+        perms3 = rng.sample(perms3, 3)
+    for o in perms3:
+        for s in (1, 0):
+            blocks.append(("controlled-X:ctrl_state=%d" % s, [cx(s, o[0], o[1])]))
+        for s, t in itertools.product((0, 1), (0, 1)):
+            blocks.append(("controlled-X:ctrl_state=%d%d" % (s, t), [ccx(s, t, o[0], o[1], o[2])]))
+    blocks += [
+        ("composite:swap", [cx(1, a, b), cx(1, b, a), cx(1, a, b)]),
+        ("composite:two-cnots-cyclic", [cx(1, a, b), cx(1, b, a)]),
+        ("composite:three-cnots-cyclic", [cx(1, a, b), cx(1, b, c), cx(0, c, a)]),
+        ("composite:toffoli-cnot", [ccx(1, 0, a, b, c), cx(1, c, a), cx(0, b, c)]),
+        ("composite:fredkin", [cx(1, c, b), ccx(1, 1, a, b, c), cx(1, c, b)]),
+        ("composite:nested-controls", [["C", [1], [a], ["C", [0], [b], ["X", c]]], cx(1, c, b)]),
+        ("controlled-general:cyclic-shift", [["C", [1], [a], ["Gen", mat_spec(cyc), [b, c], "int"]]]),
+        ("controlled-general:cyclic-shift:negated-control", [["C", [0], [c], ["Gen", mat_spec(cyc.T), [b, a], "C"]]]),
+        ("controlled-general:monomial", [["C", [1], [b], ["Gen", mat_spec(cyc * np.array([1, 1j, -1, 1])), [c, a], "c64"]]]),
+        ("controlled-general:nested", [["C", [0], [b], ["C", [1], [a], ["Gen", mat_spec(perm_matrix([1, 0])), [c], "i8"]]]]),
+        ("multiplexed:cyclic-shift-and-inverse", [["Mux", [a], [["Gen", mat_spec(cyc), [b, c], "real"], ["Gen", mat_spec(cyc.T), [b, c], "int"]]]]),
+        ("multiplexed:X-and-identity", [["Mux", [b], [["X", a], ["I", a]]], ["Mux", [c], [["I", b], ["X", b]]]]),
+        ("multiplexed:diagonal", [["Mux", [c], [["Z", a], ["S", a]]]]),
+        ("diagonal:built-in-layer", [["Z", a], ["S", b], ["T", c], ["Sdg", a], ["Tdg", b], ["Rz", 0.625, c]]),
+        ("diagonal:controlled", [["C", [1], [c], ["Z", a]], ["C", [0], [a], ["S", b]], ["C", [1, 0], [b, c], ["Z", a]],
+                                 ["C", [1], [a], ["Rz", -0.375, c]], ["C", [0], [b], ["T", c]]]),
+        ("identity:built-in", [["I", a], ["I", c]]),
+    ]
+    for t in range(12 if thorough else 4):
+        body = []
+        for _ in range(rng.randint(4, 8)):
+            r = rng.randrange(4)
+            o = rng.sample([a, b, c], 3)
+            if r == 0:
+                body.append(["X", o[0]])
+            elif r == 1:
+                body.append(cx(rng.randint(0, 1), o[0], o[1]))
+            elif r == 2:
+                body.append(ccx(rng.randint(0, 1), rng.randint(0, 1), o[0], o[1], o[2]))
+            else:
+                body.append(["Gen", mat_spec(perm_matrix(nonsym_perm(rng, 4))), [o[0], o[1]], rng.choice(["int", "C", "real", "i8"])])
+        blocks.append(("reversible:random", body))
+    for t in range(6 if thorough else 2):
+        body = []
+        for _ in range(rng.randint(4, 8)):
+            r = rng.randrange(5)
+            o = rng.sample([a, b, c], 3)
+            if r == 0:
+                body.append([rng.choice(["Z", "S", "T", "X"]), o[0]])
+            elif r == 1:
+                body.append(["C", [rng.randint(0, 1)], [o[0]], [rng.choice(["Z", "S", "X"]), o[1]]])
+            elif r == 2:
+                body.append(["Gen", mat_spec(np.diag([1j ** rng.randrange(4) for _ in range(4)])), [o[0], o[1]], "C"])
+            elif r == 3:
+                body.append(["Gen", mat_spec(perm_matrix(nonsym_perm(rng, 4)) * np.array([rng.choice([1, -1]) for _ in range(4)])),
+                             [o[0], o[1]], rng.choice(["int", "real", "C"])])
+            else:
+                body.append(["Rz", rng.randint(-8, 8) / 8.0, o[0]])
+        blocks.append(("monomial:random-circuit", body))
+    for tag, body in blocks:
+        basis = [["X", p] for p in rng.sample(allp, rng.randint(1, len(allp)))]
+        shapes = [("only", body), ("middle", pre + body + [Dd]), ("twice", [Dd] + body + body), ("basis-state", basis + body)]
+        if thorough:
+            shapes += [("last", pre + [Dd] + body), ("first", body + [Dd, ["H", b]])]
+        for pos, specs in shapes:
+            yield tag, pos, jsonable(jcopy(specs))
+
+
+def _ncontrols(spec):
+    if spec[0] == "C":
+        return len(spec[1]) + _ncontrols(spec[3])
+    if spec[0] == "Mux":
+        return len(spec[1]) + max(_ncontrols(t) for t in spec[2])
+    return 0
+
+
+def oracle_structured(ctx, sizes, specs, desc):
+    """all views of one program against the ordered product of PLAIN numpy matrices (plain_matrix + einsum embedding):
+    as_matrix over circ.fields() (and over desc["order"] if given), statevector simulator, tensor-network contraction,
+    tensor-network simulator; then for every cut in desc["cuts"]: head / tail circuits on their own, append_circuit(head);
+    append_circuit(tail) and append_circuit(tail); prepend_circuit(head) must have the matrix tail @ head"""
+    with field_mode(desc.get("fmode")):
+        return _oracle_structured(ctx, sizes, specs, desc)
+
+
+def _oracle_structured(ctx, sizes, specs, desc):
+    import qib
+    from qib.tensor_network.tensor_network import to_full_tensor
+    F = mk_fields(sizes)
+    order = fields_of_program(specs)
+    nw = sum(sizes[i] for i in order)
+    mats = [plain_matrix(s_) for s_ in specs]
+    exact = all(is_gauss_int(m_) for m_ in mats)
+
+    def product(o, lo, hi):
+        n_ = sum(sizes[i] for i in o)
+        R_ = np.identity(2 ** n_, dtype=complex)
+        for s_, m_ in zip(specs[lo:hi], mats[lo:hi]):
+            R_ = ref_embed(n_, [wire_of(sizes, o, p) for p in spec_particles(s_)], m_) @ R_
+        return R_
+
+    def same(A, B, tol=1e-12):
+        return A.shape == B.shape and (np.array_equal(A, B) if exact else np.allclose(A, B, rtol=0, atol=tol))
+    try:
+        circ, gates = build_circuit(specs, F, desc.get("build", "append"))
+    except Exception as e:
+        ctx.fail("structured-gates:building-the-circuit:crash:" + type(e).__name__, desc, "circuit", repr(e)[:200])
+        return
+    if [fidx(F, f) for f in circ.fields()] != order:
+        ctx.fail("Circuit.fields:order-of-first-appearance", desc, order, [fidx(F, f) for f in circ.fields()])
+        return
+    fl = mkseq([F[i] for i in order])
+    R = product(order, 0, len(specs))
+    # (a) matrix
+    try:
+        M = dense(circ.as_matrix(fl))
+        if not same(M, R):
+            ctx.fail("as_matrix:structured-gates:not-the-ordered-product-of-the-plain-gate-matrices", desc,
+                     "E(g_n)...E(g_1) from plain numpy matrices", "differs (max dev %.3g)" % (float(np.abs(M - R).max()) if M.shape == R.shape else -1))
+        oo = desc.get("order")
+        if oo is not None and oo != order:
+            if not same(dense(circ.as_matrix(mkseq([F[i] for i in oo]))), product(oo, 0, len(specs))):
+                ctx.fail("as_matrix:structured-gates:not-the-ordered-product-of-the-plain-gate-matrices:other-field-order", desc,
+                         "E(g_n)...E(g_1) from plain numpy matrices", "differs")
+            if not same(dense(circ.as_matrix(fl)), M):
+                ctx.fail("as_matrix:structured-gates:repeated-query-differs", desc, "the matrix of the first query", "differs")
+    except Exception as e:
+        ctx.fail("as_matrix:structured-gates:crash:" + type(e).__name__, desc, "matrix", repr(e)[:200])
+    # (b),(c) statevector simulator
+    try:
+        psi = np.asarray(qib.simulator.StatevectorSimulator().run(circ), dtype=complex).reshape(-1)
+        if not same(psi, R[:, 0]):
+            ctx.fail("statevector:structured-gates:not-first-column-of-the-ordered-product", desc,
+                     "column 0 of E(g_n)...E(g_1) from plain numpy matrices", "differs")
+        elif abs(np.vdot(psi, psi) - 1) > 1e-10:
+            ctx.fail("statevector:structured-gates:not-unit-norm", desc, 1, float(abs(np.vdot(psi, psi))))
+    except Exception as e:
+        ctx.fail("statevector:structured-gates:crash:" + type(e).__name__, desc, "state", repr(e)[:200])
+    # (d),(e) tensor network and its simulator
+    # contract_einsum needs one einsum letter per bond (numpy: 52; beyond: the known finding of C07, not a subject here).
+    # Bonds of a circuit network: one per wire, one per particle of every gate, one more per control (upper bound, tight)
+    nbonds = nw + sum(len(spec_particles(s_)) + _ncontrols(s_) for s_ in specs)
+    if nbonds > 50:
+        ctx.count("structured_tensornet_skipped_more_than_50_bonds")
+    if nw <= 6 and nbonds <= 50 and desc.get("tn", True):
+        try:
+            net = circ.as_tensornet()
+            t, am = net.contract_einsum()
+            T = np.asarray(to_full_tensor(t, am), dtype=complex)
+            ctx.count("structured_tensornet_ran")
+            if T.size != R.size or not np.allclose(T.reshape(R.shape), R, rtol=0, atol=1e-10):
+                ctx.fail("as_tensornet:structured-gates:contraction-differs-from-the-ordered-product", desc,
+                         "E(g_n)...E(g_1) from plain numpy matrices", "differs")
+        except Exception as e:
+            ctx.fail("as_tensornet:structured-gates:crash:" + type(e).__name__, desc, "network contracting to the product", repr(e)[:200])
+        try:
+            out = np.asarray(qib.simulator.TensorNetworkSimulator().run(circ), dtype=complex).reshape(-1)
+            if out.shape != R[:, 0].shape or not np.allclose(out, R[:, 0], rtol=0, atol=1e-10):
+                ctx.fail("tn_simulator:structured-gates:not-first-column-of-the-ordered-product", desc,
+                         "column 0 of E(g_n)...E(g_1) from plain numpy matrices", "differs")
+        except Exception as e:
+            ctx.fail("tn_simulator:structured-gates:crash:" + type(e).__name__, desc, "state", repr(e)[:200])
+    # composition: circuits made of circuits
+    for k in desc.get("cuts", []):
+        if not 0 < k < len(specs):
+            continue
+        try:
+            head, tail = qib.Circuit(), qib.Circuit()
+            for s_ in specs[:k]:
+                head.append_gate(build_gate(s_, F))
+            for s_ in specs[k:]:
+                tail.append_gate(build_gate(s_, F))
+            Hm, Tm = dense(head.as_matrix(fl)), dense(tail.as_matrix(fl))
+            if not same(Hm, product(order, 0, k)) or not same(Tm, product(order, k, len(specs))):
+                ctx.fail("as_matrix:structured-gates:not-the-ordered-product-of-the-plain-gate-matrices:part-of-the-program", desc,
+                         "product of the gates before / after cut %d" % k, "differs")
+            both = qib.Circuit()
+            both.append_circuit(head)
+            both.append_circuit(tail)
+            Bm = dense(both.as_matrix(fl))
+            if not same(Bm, R) or not same(Bm, Tm @ Hm, 1e-11):
+                ctx.fail("append_circuit:structured-gates:matrix-is-not-tail-times-head", desc,
+                         "as_matrix(tail) @ as_matrix(head) = ordered product (cut %d)" % k, "differs")
+            pre = qib.Circuit()
+            pre.append_circuit(tail)
+            pre.prepend_circuit(head)
+            if not same(dense(pre.as_matrix(fl)), R):
+                ctx.fail("prepend_circuit:structured-gates:matrix-is-not-tail-times-head", desc,
+                         "as_matrix(tail) @ as_matrix(head) = ordered product (cut %d)" % k, "differs")
+            psi = np.asarray(qib.simulator.StatevectorSimulator().run(both), dtype=complex).reshape(-1)
+            if not same(psi, R[:, 0]):
+                ctx.fail("statevector:structured-gates:appended-circuits:not-first-column-of-the-ordered-product", desc,
+                         "column 0 of the ordered product (cut %d)" % k, "differs")
+        except Exception as e:
+            ctx.fail("append_circuit:structured-gates:crash:" + type(e).__name__, desc, "composed circuit", repr(e)[:200])
+
+
+def structured_sweep(ctx):
+    """the round-3 class sweep: structured_programs + builtin_structured_programs on each register, circuits put
+    together in every build mode in turn, cuts for the composition oracle"""
+    rng = ctx.rng
+    cfgs = [([3], {}), ([2, 2], {"lat": [0, 0], "intern": True})]
+    if ctx.thorough:
+        cfgs += [([4], {"intern": True}), ([2, 1, 2], {"seq": "tuple"}), ([2, 2, 2], {"lat": [0, 1, 0]})]
+    n = 0
+    for ci, (sizes, fm) in enumerate(cfgs):
+        for gen, src in ((structured_programs, "general"), (builtin_structured_programs, "built-in")):
+            for gi, (tag, pos, specs) in enumerate(gen(rng, sizes, ctx.thorough)):
+                if ci >= (2 if ctx.thorough else 1) and gi % 2 == (gi // 10) % 2:
+                    continue            # the first register (thorough: two) runs everything, the others every second program
+                desc = {"kind": "structured", "sizes": sizes, "specs": specs, "class": tag, "position": pos,
+                        "build": BUILD_MODES[n % len(BUILD_MODES)]}
+                if fm:
+                    desc["fmode"] = fm
+                if len(specs) >= 2:
+                    desc["cuts"] = sorted({1, len(specs) // 2, len(specs) - 1}) if ctx.thorough else [1 + (n // 3) % (len(specs) - 1)]
+                used = fields_of_program(specs)
+                if len(sizes) >= 2 and n % 2:
+                    desc["order"] = list(reversed(range(len(sizes)))) if len(used) == len(sizes) else \
+                        used[::-1] + [i for i in range(len(sizes)) if i not in used]
+                if sum(sizes[i] for i in used) > 4 and not ctx.thorough and n % 2:
+                    desc["tn"] = False
+                n += 1
+                oracle_structured(ctx, sizes, specs, desc)
+                ctx.count("structured_program")
+                ctx.count("structured_source_" + src)
+                ctx.count("structured_class_" + tag.split(":")[0])
+                ctx.count("structured_position_" + pos)
+                ctx.count("structured_build_" + desc["build"])
+                for s_ in specs:
+                    if s_[0] == "Gen" and len(s_) > 3:
+                        ctx.count("structured_general_gate_layout_" + s_[3])
+                if len(specs) >= 2:
+                    ctx.nontriv({"kind": "structured", "class": tag, "position": pos, "sizes": sizes, "n": len(specs)})
+
+
 # ----------------------------------------------------------------------------- the check
 def run(ctx):
     import qib
@@ -1645,6 +2086,22 @@ def run(ctx):
     # clauses (d),(e): circuit tensor network / TN simulator theorems (coq/props/C05n.v) and their tie
     from checks import circnet_cases
     circnet_cases.run(ctx)
+    # round 3: gates with structured matrices, all views against plain numpy references (last: the random streams of the
+    # generators above are the ones they had before)
+    ctx.rules.append("gates with STRUCTURED matrices (a view may take a special path for them): identity, non-symmetric permutations "
+                     "(cyclic shifts, 3-cycles, random), signed / phased permutations (also all entries 1 but the first / last row, "
+                     "permutation times i / -1), diagonal gates (+-1, i^k, 8th roots, one entry, -identity), sparse non-monomial "
+                     "unitaries (block permutation (x) dense block, identity with one dense block, permutation times it) on 1..3 "
+                     "wires in non-ascending order, as GeneralGate in int / int8 / float / complex / complex64 / list / Fortran "
+                     "layouts, and through built-in gates (controlled-X under every control state and wire assignment, SWAP / cyclic "
+                     "composites of CNOTs and Toffolis, controlled and multiplexed GeneralGates holding permutations, built-in "
+                     "diagonal gates, random reversible and random monomial circuits); positions: only gate, first, last, middle, "
+                     "between dense gates, twice in a row, next to another structured gate, inside a permutation circuit on a basis "
+                     "state; every build mode in turn; views: as_matrix (two field orders, repeated query), statevector, tensor "
+                     "network, TN simulator, and head/tail circuits joined by append_circuit / prepend_circuit at a cut (thorough: "
+                     "three cuts, three wire orderings, five registers). Reference: plain numpy matrices from the definitions "
+                     "(plain_matrix), einsum embedding - no library object is asked for a matrix")
+    structured_sweep(ctx)
 
 
 def replay(ctx, data):
@@ -1662,6 +2119,8 @@ def replay(ctx, data):
         run_history(ctx, random.Random(0), inp["sizes"], inp["events"], dict(inp))
     elif k == "builders":
         oracle_builders(ctx, inp["sizes"], inp["ops"], inp)
+    elif k == "structured":
+        oracle_structured(ctx, inp["sizes"], inp["specs"], inp)
     elif k == "ctor":
         oracle_ctor(ctx)
     elif k == "array_alias":
